@@ -98,7 +98,7 @@ def run(facts, tier):
     rec = [bi for bi, n in calls if n.endswith("Element::in_scope_namespace") or n == f["path"]]
     checks = [
         ("own declarations first", bool(own) and all(own[0] in dom[p] for p in push)),
-        ("implicit xml binding", bool(xml)),
+        ("implicit xml binding", bool(xml) and _flows_into_push(f, "XmlNamespace::xml")),
         ("inherits from the parent", bool(rec)),
         ("empty URIs dropped after merging", bool(retain) and not any(p in e1_reach(succ, retain[0]) for p in push)),
     ]
@@ -165,6 +165,27 @@ def c10_6(facts, res):
                             "names only" % f["path"], f["file"], calls[0].get("ln"), {}))
     if st["instances"] < 2:
         raise BrokenCheck("C10-6: %d callers of Context::expanded_name (floor 2)" % st["instances"])
+
+
+def _flows_into_push(f, ctor_suffix):
+    """The value built by the named constructor is bound to a local that is the argument of a push on the result list."""
+    lids = set()
+    for n in walk(f["body"]):
+        if n.get("s") == "Let" and isinstance(n.get("init"), dict) and n["init"].get("k") == "Call" and \
+                str(n["init"]["f"].get("path", "")).endswith(ctor_suffix):
+            for q in walk(n["pat"]):
+                if q.get("p") == "Bind":
+                    lids.add(q["lid"])
+    for n in walk(f["body"]):
+        if n.get("k") == "MethodCall" and n["m"] == "push" and n.get("args"):
+            a = n["args"][0]
+            while a.get("k") == "MethodCall" and a["m"] in ("clone",):
+                a = a["recv"]
+            if a.get("k") == "Path" and a.get("lid") in lids:
+                return True
+            if a.get("k") == "Call" and str(a["f"].get("path", "")).endswith(ctor_suffix):
+                return True
+    return False
 
 
 def _default_key(node):
